@@ -145,6 +145,13 @@ example : joinFold [tn 2 (1/2) true false false, tn (5/2) (1/2) false true false
   rw [this]
   norm_num
 
+/-- the semantics joins ties note by note, also inside chords: `[2c [2e` / `2c] 2e]` denotes two sounding
+    notes of four quarters (open finding F-C19-kern-chord-ties: `load_kern` leaves these four notes untied) -/
+example :
+    joinFold [⟨0, 2, "C", 0, 4, true, false, false⟩, ⟨0, 2, "E", 0, 4, true, false, false⟩,
+              ⟨2, 2, "C", 0, 4, false, false, true⟩, ⟨2, 2, "E", 0, 4, false, false, true⟩] []
+      = [⟨0, 4, "C", 0, 4⟩, ⟨0, 4, "E", 0, 4⟩] := by decide +kernel
+
 /-! ## grace notes -/
 
 /-- `grace_zero`: a `q` token has duration 0 and does not advance its spine -/
